@@ -213,7 +213,7 @@ func matchColorLeaf(v GVal, raw string) string {
 			}
 		}
 		return ""
-	case "struct", "map":
+	case "struct", "map", "nilptr":
 		want := fmt.Sprintf("{{%v}}", v.Go())
 		if raw == strconv.Quote(want) { // quoted in colour mode too since /repo 0c009c6
 			return ""
